@@ -17,6 +17,10 @@ use tokio::sync::broadcast;
 pub const N: usize = 3;
 pub const IDLE_MS: u64 = 3_000;
 const KEEPALIVE_MS: u64 = 1_000;
+/// A side that hears nothing reports the loss within the idle timeout after its last packet
+/// exchange; a keep-alive it sends itself in the meantime restarts that timer once (RFC 9000
+/// 10.1), so the observable bound from the start of a black hole is idle + keep-alive (+ 1 s slack).
+pub const LOSS_MS: u64 = IDLE_MS + KEEPALIVE_MS + 1_000;
 
 #[derive(Clone, Copy, Debug, PartialEq, Eq)]
 pub enum HOp {
@@ -24,9 +28,11 @@ pub enum HOp {
     Disconnect(usize, usize),
     /// black-hole the link between two nodes for 1 s (short) or idle timeout + 1 s (long), then heal
     Cut(usize, usize, bool),
-    /// black-hole only one direction (a -> b) for idle timeout + 1 s, then heal
+    /// black-hole only one direction (a -> b) for 2 x idle timeout + 1 s, then heal
     CutOneWay(usize, usize),
     Restart(usize),
+    /// black-hole the link, then a disconnects b (its close frame is lost), wait idle timeout + 1 s, heal
+    CutDisconnect(usize, usize),
 }
 
 pub fn all_ops() -> Vec<HOp> {
@@ -57,6 +63,9 @@ pub fn all_ops() -> Vec<HOp> {
     for i in 0..N {
         v.push(HOp::Restart(i));
     }
+    for (i, j) in [(0, 1), (2, 1)] {
+        v.push(HOp::CutDisconnect(i, j));
+    }
     v
 }
 
@@ -67,6 +76,7 @@ pub fn op_json(o: &HOp) -> Value {
         HOp::Cut(i, j, long) => json!([if long { "cut_long" } else { "cut_short" }, i, j]),
         HOp::CutOneWay(i, j) => json!(["cut_oneway", i, j]),
         HOp::Restart(i) => json!(["restart", i, i]),
+        HOp::CutDisconnect(i, j) => json!(["cut_disconnect", i, j]),
     }
 }
 
@@ -78,6 +88,7 @@ pub fn parse_op(v: &Value) -> HOp {
         "cut_long" => HOp::Cut(i, j, true),
         "cut_short" => HOp::Cut(i, j, false),
         "cut_oneway" => HOp::CutOneWay(i, j),
+        "cut_disconnect" => HOp::CutDisconnect(i, j),
         _ => HOp::Restart(i),
     }
 }
@@ -204,17 +215,37 @@ async fn scenario(sim: Arc<Sim>, unit: Value, which: &'static str) -> Obs {
             }
             HOp::Cut(i, j, long) => {
                 sim.fabric.set_link_both(node_idx[i], node_idx[j], false);
-                tokio::time::sleep(ms(if long { IDLE_MS + 1_000 } else { 1_000 })).await;
+                tokio::time::sleep(ms(if long { LOSS_MS } else { 1_000 })).await;
+                if long && (nets[i].peers().contains(&ids[j]) || nets[j].peers().contains(&ids[i])) {
+                    viol!("loss-not-reported", "step {step}: the link n{i}<->n{j} has been dead for more than the idle timeout but n{i} lists n{j}: {}, n{j} lists n{i}: {}", nets[i].peers().contains(&ids[j]), nets[j].peers().contains(&ids[i]));
+                }
                 sim.fabric.set_link_both(node_idx[i], node_idx[j], true);
                 o.shape.push(if long { 'C' } else { 'c' });
                 o.log.push(format!("step {step}: cut n{i}<->n{j} long={long}"));
             }
             HOp::CutOneWay(i, j) => {
                 sim.fabric.set_link(node_idx[i], node_idx[j], false);
-                tokio::time::sleep(ms(IDLE_MS + 1_000)).await;
+                // n{j} hears nothing and gives up after the idle timeout (silently); n{i} still hears
+                // n{j} until then, so it may take one more idle timeout to report the loss
+                tokio::time::sleep(ms(2 * LOSS_MS)).await;
+                if nets[i].peers().contains(&ids[j]) || nets[j].peers().contains(&ids[i]) {
+                    viol!("loss-not-reported", "step {step}: n{i}->n{j} has been black-holed for more than the idle timeout but n{i} lists n{j}: {}, n{j} lists n{i}: {}", nets[i].peers().contains(&ids[j]), nets[j].peers().contains(&ids[i]));
+                }
                 sim.fabric.set_link(node_idx[i], node_idx[j], true);
                 o.shape.push('o');
                 o.log.push(format!("step {step}: cut n{i}->n{j} one way"));
+            }
+            HOp::CutDisconnect(i, j) => {
+                sim.fabric.set_link_both(node_idx[i], node_idx[j], false);
+                let was = nets[j].peers().contains(&ids[i]);
+                let _ = nets[i].disconnect(ids[j]);
+                tokio::time::sleep(ms(LOSS_MS)).await;
+                if nets[j].peers().contains(&ids[i]) {
+                    viol!("loss-not-reported", "step {step}: n{i} disconnected n{j} during a partition; more than the idle timeout later n{j} still lists n{i}");
+                }
+                sim.fabric.set_link_both(node_idx[i], node_idx[j], true);
+                o.shape.push(if was { 'Q' } else { 'q' });
+                o.log.push(format!("step {step}: cut n{i}<->n{j}, n{i} disconnects n{j}, wait, heal"));
             }
             HOp::Restart(i) => {
                 let old = nets[i].clone();
